@@ -83,7 +83,7 @@ def Sys.owned4 : Elem4 → List Nat
   | .plug (.dns _) => [6] | .plug (.mtu _) => [26] | .plug (.netmask _) => [1] | .plug (.router _) => [3]
   | .plug (.leasetime _) => [51] | .plug (.search _) => [119] | .plug (.staticroute _) => [121]
   | .plug (.ipv6only _) => [108] | .plug (.autoconfigure _) => [116] | .plug (.nbp _) => [66, 67]
-  | .plug (.sleep _) => [] | .plug (.serverid _) => [54] | .file _ => []
+  | .plug (.sleep _) => [] | .plug (.serverid _) => [54] | .file _ => [] | .lease _ => [51]
 
 theorem handle4_none (e : Elem4) (req : Sys.Req4) : handle4 e req none = (none, true) := by
   cases e <;> rfl
@@ -139,6 +139,18 @@ theorem handle4_some (e : Elem4) (req : Sys.Req4) (r x : Sys.Resp4)
   | file t =>
     rw [handle4_file] at h
     split at h <;> (cases h; exact ⟨rfl, rfl, rfl, rfl, rfl, rfl, fun _ _ => rfl⟩)
+  | lease out =>
+    cases out with
+    | none => cases h
+    | some p =>
+      obtain ⟨ip, o51⟩ := p
+      simp only [handle4] at h
+      cases h
+      refine ⟨rfl, rfl, rfl, rfl, rfl, rfl, ?_⟩
+      intro c hc
+      have hne : c ≠ 51 := by
+        intro h51; subst h51; exact hc (by simp [owned4])
+      exact lookup_upd4_other 51 c _ _ hne
 
 /-- the invariant of the chain -/
 def Sys.Inv4 (chain : List Elem4) (r0 x : Sys.Resp4) : Prop :=
@@ -165,6 +177,7 @@ theorem not_owned_echo (e : Elem4) : 82 ∉ owned4 e ∧ 61 ∉ owned4 e ∧ 53 
   cases e with
   | plug c => cases c <;> simp [owned4]
   | file t => simp [owned4]
+  | lease o => simp [owned4]
 
 /-- the part of `serve4` after the chain returned `some resp` -/
 def Sys.deliverS4 (bound : Nat) (oob : Option Nat) (req : Sys.Req4) (resp : Sys.Resp4) : Sys.Out4 :=
@@ -589,6 +602,7 @@ theorem sys_neverStops4 (e : Elem4) (he : neverStops4 e = true) (req : Sys.Req4)
     ∃ r', handle4 e req (some r) = (some r', false) := by
   cases e with
   | file t => simp [neverStops4] at he
+  | lease o => simp [neverStops4] at he
   | plug c =>
     cases c <;> simp only [neverStops4] at he <;> try (exact absurd he (by decide))
     all_goals
